@@ -201,6 +201,17 @@ Theorem termination_bounded_demand sample cost alloc conv garbage df notional le
   exists fuel, price_run sample cost alloc conv garbage df notional level_max 0 fuel L0 N0 <> OutOfFuel.
 Proof. intros HB HL. apply (terminates sample cost alloc conv df notional level_max Bd HB (Nat.max N0 Bd)); lia. Qed.
 
+(* no guard on the configuration any more: the repaired entry point refuses initial_level > maximum_level before simulating
+   anything, and every other run is safe *)
+Theorem never_above_maximum sample cost alloc conv garbage df notional level_max phantom fuel L0 N0 :
+  match price_entry sample cost alloc conv garbage df notional level_max phantom fuel L0 N0 with
+  | None => level_max < L0
+  | Some o => L0 <= level_max /\ safe_outcome alloc conv level_max o
+  end.
+Proof. unfold price_entry. destruct (Nat.ltb level_max L0) eqn:E.
+  - now apply Nat.ltb_lt in E.
+  - apply Nat.ltb_ge in E. split; [exact E|]. now apply price_safety. Qed.
+
 (* ------------------------------------------------------------------ statements as used by Properties/C06.v *)
 Theorem price_safety_full sample cost alloc conv garbage df notional level_max phantom fuel L0 N0 : L0 <= level_max ->
   safe_outcome alloc conv level_max (price_run sample cost alloc conv garbage df notional level_max phantom fuel L0 N0).
